@@ -206,8 +206,8 @@ Section import.
   Proof.
     intros Hr. destruct (rxn_node_facts n e Hr) as (rx & Hrx & Hid & Hfid & Hl & Hr' & Hrule & Hin & Hout).
     unfold import_rxn, rebuild_step. destruct acc as [s [er|]]; [done|]. cbv zeta.
-    fold (nd_of n). rewrite Hid. rewrite decide_False.
-    - fold (fl' n) (fr' n) (frule n). by rewrite Hfid.
+    fold (nd_of n). rewrite decide_False.
+    - rewrite Hid. fold (fl' n) (fr' n) (frule n). by rewrite Hfid.
     - rewrite Hin, Hout. intros [Ha%fmap_empty_inv Hb%fmap_empty_inv]. by eapply rxn_nonempty.
   Qed.
 
